@@ -13,7 +13,7 @@ import string
 from ..flow import flow_of, path_of
 from ..loader import FUNC, AnalysisError, const_fold, dotted, last_name, loc, short, walk_local
 from ..cfg import cfg_of
-from ..util import ASE, CP2K, ENGPARTS, GROMACS, LAMMPS, TURTLE, kwarg, loops_of
+from ..util import ASE, CP2K, ENGBASE, ENGPARTS, GROMACS, LAMMPS, TURTLE, kwarg, loops_of
 from ..variants import B, K
 
 EXPLANATION = (
@@ -558,6 +558,73 @@ def _lin_names(e):
     return None
 
 
+def r1910(ctx):
+    """Template editing: the regular expressions that find `key <delim> value` in the writer
+    (_modify_input) and in the reader (_read_input_settings) have the same structure, and the key
+    group is lazy - the key is the text before the *first* delimiter, so a value or comment that
+    contains the delimiter again (`nsteps = 5 ; 2*5 = 10 ps`) does not move the split point."""
+    import re as _re
+    try:
+        from re import _parser as _sre
+    except ImportError:  # pragma: no cover
+        import sre_parse as _sre
+    rid = "R-19.10"
+    from ..util import ENGBASE
+    pats = {}
+    for fname in ("_modify_input", "_read_input_settings"):
+        f = ctx.tree.func(ENGBASE, "EngineBase." + fname)
+        calls = [c for c in walk_local(f) if isinstance(c, ast.Call) and dotted(c.func) in ("re.compile", "re.match", "re.search") and c.args]
+        if len(calls) != 1:
+            raise AnalysisError(f"R-19.10: exactly one regular expression expected in {fname}")
+        a = calls[0].args[0]
+        if isinstance(a, ast.Constant) and isinstance(a.value, str):
+            txt = a.value
+        elif isinstance(a, ast.JoinedStr):
+            txt = ""
+            for v in a.values:
+                if isinstance(v, ast.Constant):
+                    txt += v.value
+                else:
+                    txt += "="  # the delimiter (escaped or not): one literal character
+        else:
+            raise AnalysisError(f"R-19.10: pattern of {fname} is not a (formatted) string literal")
+        try:
+            parsed = _sre.parse(txt)
+        except Exception as exc:
+            raise AnalysisError(f"R-19.10: cannot parse the pattern of {fname}: {exc}")
+        pats[fname] = (calls[0], txt, parsed)
+
+    def shape(p):
+        out = []
+        for op, av in p:
+            name = str(op)
+            if name in ("MAX_REPEAT", "MIN_REPEAT"):
+                out.append((name, av[0], str(av[1]), shape(av[2])))
+            elif name == "SUBPATTERN":
+                out.append((name, shape(av[3])))
+            else:
+                out.append((name, str(av)))
+        return out
+
+    s1, s2 = shape(pats["_modify_input"][2]), shape(pats["_read_input_settings"][2])
+    if s1 == s2:
+        ctx.ok(rid, pats["_modify_input"][0], f"writer and reader of the input template split lines with the same pattern {pats['_modify_input'][1]!r}")
+    else:
+        ctx.bad(rid, pats["_modify_input"][0], f"_modify_input splits `key = value` lines with {pats['_modify_input'][1]!r} but _read_input_settings with {pats['_read_input_settings'][1]!r}: an entry the reader finds under one key is not the entry the writer changes (the requested entry stays, a duplicate is appended)",
+                construct="template regex disagreement")
+    for fname, (call, txt, parsed) in pats.items():
+        first = list(parsed)[0] if len(list(parsed)) else None
+        lazy = False
+        if first is not None and str(first[0]) == "SUBPATTERN":
+            inner = list(first[1][3])
+            lazy = bool(inner) and str(inner[0][0]) == "MIN_REPEAT"
+        if lazy:
+            ctx.ok(rid, call, f"{fname}: the key group is lazy - the key ends at the first delimiter")
+        else:
+            ctx.bad(rid, call, f"{fname}: the key group of {txt!r} is greedy (or not a group): on a line whose value or comment contains the delimiter again the key is taken up to the last delimiter, the requested entry is not changed and a duplicate line is appended",
+                    construct=f"{fname}: greedy key group")
+
+
 def r199(ctx):
     """Extracting frame k of a multi-frame file returns frame k: every _extract_frame selects
     with its own `idx` parameter, unmodified; read_lammpstrj addresses both of its blocks at
@@ -656,6 +723,7 @@ def r199(ctx):
 
 def run(ctx):
     ctx.rule("R-19.6", "the flattened box matrix has the element order of the g96 BOX record (folded from the source, comprehensions included)", floor=1)
+    ctx.rule("R-19.10", "input-template editing: writer and reader split `key <delim> value` with the same regular expression, whose key group is lazy (regex syntax trees compared)", floor=3)
     ctx.rule("R-19.9", "extracting frame k returns frame k: every _extract_frame selects with its unmodified frame number; read_lammpstrj strides by the block size; read_trr_frame counts from 0 and tests before incrementing", floor=8)
     ctx.rule("R-19.8", "the multi-frame readers return each frame with its own arrays (a buffer handed out is re-allocated before it is written again): frame k is frame k", floor=3)
     ctx.rule("R-19.7", "positional role agreement in the codecs: (box, xyz, vel, names) / (id_type, pos, vel, box) / (rawdata, xyz, vel, box) are unpacked and passed at the positions where the callee returns / expects them", floor=12)
@@ -667,6 +735,7 @@ def run(ctx):
     for r in (r191, r192, r193, r194, r195, r196):
         ctx.attempt(r, ctx)
     ctx.attempt(r199, ctx)
+    ctx.attempt(r1910, ctx)
     from .shared import role_agreement, handed_out_buffers
     from .c13 import readers
     for rf in readers(ctx.tree):
@@ -678,6 +747,8 @@ def run(ctx):
 
 
 VARIANTS = [
+    B("c19-template-regex-greedy", ENGBASE, '        reg = re.compile(rf"(.*?){delim}")\n        written = set()', '        reg = re.compile(rf"(.*){re.escape(delim)}")\n        written = set()', "R-19.10", control=True, why="seeded C19_d"),
+    K("c19-keep-template-regex-escaped", ENGBASE, 'reg = re.compile(rf"(.*?){delim}")', 'reg = re.compile(rf"(.*?){re.escape(delim)}")', count=2),
     B("c19-cp2k-extract-off-by-one", CP2K, "        for i, snapshot in enumerate(read_xyz_file(traj_file)):\n            if i == idx:\n                box, xyz, vel, names = convert_snapshot(snapshot)\n                if os.path.isfile(out_file):\n                    logger.debug(\"CP2K will overwrite", "        for i, snapshot in enumerate(read_xyz_file(traj_file), 1):\n            if i == idx:\n                box, xyz, vel, names = convert_snapshot(snapshot)\n                if os.path.isfile(out_file):\n                    logger.debug(\"CP2K will overwrite", "R-19.9", control=True),
     B("c19-lammps-extract-next-frame", LAMMPS, "        id_type, pos, vel, box = read_lammpstrj(traj_file, idx, self.n_atoms)\n        write_lammpstrj(out_file, id_type, pos, vel, box)", "        id_type, pos, vel, box = read_lammpstrj(traj_file, idx + 1, self.n_atoms)\n        write_lammpstrj(out_file, id_type, pos, vel, box)", "R-19.9"),
     B("c19-ase-extract-from-end", ASE, "        atoms = traj[idx]\n", "        atoms = traj[-idx]\n", "R-19.9"),
